@@ -18,6 +18,19 @@ ASSUMPTIONS = {
 }
 
 PLAN = {
+    "C01": {
+        "wtf": True,
+        "quick": [
+            {"run": "TestC01_Engine", "checks": 6000},
+            {"run": "TestC01_Shipped", "checks": 150},
+            {"run": "TestC01_CLI", "checks": 120},
+        ],
+        "thorough": [
+            {"run": "TestC01_Engine", "checks": 300000, "shards": 12, "timeout": 3000},
+            {"run": "TestC01_Shipped", "checks": 2000, "shards": 2, "timeout": 3000},
+            {"run": "TestC01_CLI", "checks": 3000, "shards": 2, "timeout": 3000},
+        ],
+    },
     "C12": {
         "quick": [
             {"run": "TestC12_Model", "checks": 4000},
